@@ -143,6 +143,12 @@ def run_case(case):
     rnd.shuffle(order)
     order2 = [c for c in order if status[c] == "good"]
     with core.workdir() as d:
+        if case["order_seed"] % 3 == 0:
+            # re-run into an output directory that already holds the result of an earlier run
+            ordergfa.run_order(d, case["gfa"], ",".join(order2), case["by_chrom"], sub="o1")
+            rerun = True
+        else:
+            rerun = False
         res, files = ordergfa.run_order(d, case["gfa"], ",".join(order), case["by_chrom"], sub="o1")
         core.check(res[0] == "ok", "order_gfa with a non-chain component in the request (%s; non-chain: %s) did not complete normally: %s",
                    order, [c for c in order if status[c] == "bad"], res)
@@ -157,7 +163,7 @@ def run_case(case):
             k = next((i for i, (x, y) in enumerate(zip(a, b_)) if x != y), min(len(a), len(b_)))
             raise core.Violation("%s differs from the run without the non-chain chromosomes (order %s vs %s); first difference at line %d: %r vs %r"
                                  % (name, order, order2, k + 1, a[k] if k < len(a) else None, b_[k] if k < len(b_) else None))
-    cl = ["by_chrom" if case["by_chrom"] else "complete"]
+    cl = ["by_chrom" if case["by_chrom"] else "complete"] + (["rerun_into_same_outdir"] if rerun else [])
     pos = [i for i, c in enumerate(order) if status[c] == "bad"]
     nontrivial = any(i < len(order) - 1 for i in pos)
     for c in order:
